@@ -1,1 +1,27 @@
-//! witnesses for c14 (filled in below)
+//! C14: the range vector of a `Schedule` is owned by its module.
+
+/// A schedule cannot be forged from an arbitrary (overlapping, unsorted) vector.
+/// ```compile_fail,E0451
+/// use opening_hours::schedule::Schedule;
+/// let _s = Schedule { inner: Vec::new() };
+/// ```
+/// Twin:
+/// ```no_run
+/// use opening_hours::schedule::Schedule;
+/// let _s = Schedule::new();
+/// ```
+pub struct LiteralIsPrivate;
+
+/// The vector is not reachable from outside the crate.
+/// ```compile_fail,E0616
+/// use opening_hours::schedule::Schedule;
+/// let mut s = Schedule::new();
+/// s.inner.clear();
+/// ```
+/// Twin:
+/// ```no_run
+/// use opening_hours::schedule::Schedule;
+/// let mut s = Schedule::new();
+/// s.is_empty();
+/// ```
+pub struct VectorIsPrivate;
